@@ -29,7 +29,8 @@ func (r *Rsoa) MarshalText() (text []byte, err error) {
 	w.Write(NSEP)
 	putdomtext(w, r.adm)
 	w.Write(NSEP)
-	if r.ser != 0 {
+	// an absent serial reads back as the codec's default: a zero serial may only be left out when that default is zero
+	if r.ser != 0 || (r.c != nil && r.c.Serial != 0) {
 		fmt.Fprintf(w, "%d", r.ser)
 	}
 	w.Write(NSEP)
